@@ -56,8 +56,19 @@ type Str struct {
 
 // OpaqueStr is a sequence of chunks; only its length can be observed.
 type OpaqueStr struct {
-	Len    *Term    // 64-bit
-	Chunks []string // chunk identities, for sinks that record what was written
+	Len  *Term // 64-bit
+	Segs []Seg // the pieces the string was concatenated from
+}
+
+// Seg is one piece of an opaque string: literal/symbolic bytes (ID == ""), a
+// rendering token (Tok != nil: the output of an uninterpreted rendering
+// function such as %.6f of a symbolic float, identified by the 64-bit token
+// term) or a blob of abstract content (only its length is known).
+type Seg struct {
+	Bytes []*Term
+	ID    string
+	Tok   *Term
+	Len   *Term
 }
 
 type MapEntry struct {
